@@ -4,7 +4,9 @@ package c19
 
 import (
 	"fmt"
+	"reflect"
 	"strings"
+	"sync/atomic"
 	"time"
 
 	age "github.com/craterdog/go-collection-framework/v4/agent"
@@ -155,6 +157,178 @@ func pairUnit[V any](tname string, data func(seed int) []V, i, j int, three bool
 	}}
 }
 
+// derived: two DISTINCT instances of which one was derived from the other (copy
+// constructors, views, results of class functions) are used from two threads.
+func derivedUnits() []engine.Unit {
+	N := common.N
+	type pairMaker struct {
+		name string
+		mk   func() (a func() string, b func() string)
+	}
+	deep := func(seed int) [][]int { return [][]int{{3, seed}, {1}, {2, 2, seed}} }
+	makers := []pairMaker{
+		{"Set and a Set built from it with MakeFromSequence", func() (func() string, func() string) {
+			x := col.Set[[]int](N()).MakeFromArray(deep(0))
+			y := col.Set[[]int](N()).MakeFromSequence(x)
+			return func() string { return fmt.Sprint(x.ContainsValue([]int{1}), x.GetIndex([]int{3, 0})) },
+				func() string { y.AddValue([]int{0}); return fmt.Sprint(y.ContainsValue([]int{1}), y.AsArray()) }
+		}},
+		{"Set and the result of Or with it", func() (func() string, func() string) {
+			x := col.Set[[]int](N()).MakeFromArray(deep(0))
+			y := col.Set[[]int](N()).Or(x, col.Set[[]int](N()).MakeFromArray(deep(1)))
+			return func() string { x.AddValue([]int{9}); return fmt.Sprint(x.AsArray()) },
+				func() string { y.RemoveValue([]int{1}); return fmt.Sprint(y.ContainsValue([]int{2, 2, 1}), y.AsArray()) }
+		}},
+		{"List and the result of Concatenate with it", func() (func() string, func() string) {
+			x := col.List[[]int](N()).MakeFromArray(deep(0))
+			y := col.List[[]int](N()).Concatenate(x, x)
+			return func() string { x.SetValue(1, []int{7}); x.SortValues(); return fmt.Sprint(x.AsArray()) },
+				func() string { y.ReverseValues(); return fmt.Sprint(y.GetIndex([]int{1}), y.AsArray()) }
+		}},
+		{"List and a view obtained with GetValues", func() (func() string, func() string) {
+			x := col.List[[]int](N()).MakeFromArray(deep(0))
+			y := x.GetValues(1, -1)
+			return func() string { x.SetValue(1, []int{7}); x.ReverseValues(); return fmt.Sprint(x.AsArray()) },
+				func() string { return fmt.Sprint(y.AsArray(), y.GetSize()) }
+		}},
+		{"List and an iterator obtained from it", func() (func() string, func() string) {
+			x := col.List[[]int](N()).MakeFromArray(deep(0))
+			it := x.GetIterator()
+			return func() string { x.SetValue(2, []int{7}); x.SortValues(); return fmt.Sprint(x.AsArray()) },
+				func() string {
+					var out [][]int
+					for it.HasNext() {
+						out = append(out, it.GetNext())
+					}
+					return fmt.Sprint(out)
+				}
+		}},
+		{"Catalog and the result of Merge with it", func() (func() string, func() string) {
+			x := col.Catalog[string, []int](N()).Make()
+			x.SetValue("a", []int{1})
+			x.SetValue("b", []int{2})
+			z := col.Catalog[string, []int](N()).Make()
+			z.SetValue("c", []int{3})
+			y := col.Catalog[string, []int](N()).Merge(x, z)
+			return func() string { x.SetValue("a", []int{9}); x.SortValues(); return fmt.Sprint(x.GetKeys().AsArray(), x.GetValue("a")) },
+				func() string { y.SetValue("a", []int{8}); y.ReverseValues(); return fmt.Sprint(y.GetKeys().AsArray(), y.GetValue("a")) }
+		}},
+		{"Stack and a Stack built from it", func() (func() string, func() string) {
+			x := col.Stack[[]int](N()).MakeFromArray(deep(0))
+			y := col.Stack[[]int](N()).MakeFromSequence(x)
+			return func() string { x.AddValue([]int{5}); return fmt.Sprint(x.AsArray()) },
+				func() string { y.RemoveTop(); return fmt.Sprint(y.AsArray()) }
+		}},
+		{"Map and a Map built from it", func() (func() string, func() string) {
+			x := col.Map[string, int](N()).MakeFromMap(map[string]int{"a": 1, "b": 2})
+			y := col.Map[string, int](N()).MakeFromSequence(x)
+			return func() string { x.SetValue("a", 9); return fmt.Sprint(x.GetValue("a"), x.GetSize()) },
+				func() string { y.RemoveValue("b"); return fmt.Sprint(y.GetValue("a"), y.GetSize()) }
+		}},
+		{"two sorters with the default ranker", func() (func() string, func() string) {
+			s1, s2 := age.Sorter[[]int]().Make(), age.Sorter[[]int]().Make()
+			return func() string { a := deep(0); s1.SortValues(a); return fmt.Sprint(a) },
+				func() string { a := deep(1); s2.SortValues(a); return fmt.Sprint(a) }
+		}},
+	}
+	var us []engine.Unit
+	for _, mk := range makers {
+		mk := mk
+		name := "derived: " + mk.name
+		us = append(us, engine.Unit{Name: name, Run: func(r *engine.Rec) {
+			// expected results: each side alone on a freshly derived pair
+			var want [2]string
+			{
+				a, _ := mk.mk()
+				rt.Protect(20000000, func() { want[0] = a() })
+				_, b := mk.mk()
+				rt.Protect(20000000, func() { want[1] = b() })
+			}
+			prog := func() ([]rt.ThreadSpec, func(*rt.Exec) []string) {
+				a, b := mk.mk()
+				var got [2]string
+				var outs [2]rt.Outcome
+				return []rt.ThreadSpec{
+						{Name: "A", Body: func() { outs[0] = rt.Protect(0, func() { got[0] = a() }) }},
+						{Name: "B", Body: func() { outs[1] = rt.Protect(0, func() { got[1] = b() }) }},
+					}, func(ex *rt.Exec) []string {
+						var what []string
+						for _, rc := range ex.Races {
+							what = append(what, common.RaceSig(rc)+"\x00"+rc.String())
+						}
+						if len(ex.Stuck) > 0 {
+							what = append(what, "deadlock\x00"+fmt.Sprint(ex.SortedStuck()))
+						}
+						for k := 0; k < 2; k++ {
+							if outs[k].Panicked {
+								what = append(what, "operation on a derived instance panics when run concurrently: "+common.PanicClass(outs[k].Value)+"\x00"+outs[k].Value)
+							} else if got[k] != want[k] {
+								what = append(what, "result on a derived instance differs from running the operations one after another\x00"+fmt.Sprintf("got %q want %q", got[k], want[k]))
+							}
+						}
+						return what
+					}
+			}
+			schedx.Explore(r, prog, schedx.Opts{Name: name, Desc: name, SigPrefix: "derived instances [" + mk.name + "]: ", CapA: 50000, Bounds: []int{1, 2}, CapB: 50000})
+		}})
+	}
+	return us
+}
+
+var freshType int64
+
+// formatterFirstUse: two threads format values of collection types that no
+// formatter has seen before in this process (a new Go array type per
+// execution), so that anything cached per type is written during the explored
+// execution. The expected text comes from a model, not from the library.
+func formatterFirstUse() engine.Unit {
+	name := "first-use: FormatValue/String() on never-seen collection types"
+	return engine.Unit{Name: name, Run: func(r *engine.Rec) {
+		intT := reflect.TypeOf(int(0))
+		mint := func() (any, string) {
+			k := int(atomic.AddInt64(&freshType, 1))
+			a, b := 2+k%29, 2+(k/29)%29
+			outer := reflect.New(reflect.ArrayOf(a, reflect.ArrayOf(b, intT))).Elem()
+			var sb strings.Builder
+			sb.WriteString("[")
+			for i := 0; i < a; i++ {
+				sb.WriteString("\n    [")
+				for j := 0; j < b; j++ {
+					outer.Index(i).Index(j).SetInt(int64(i*b + j))
+					sb.WriteString(fmt.Sprintf("\n        %d", i*b+j))
+				}
+				sb.WriteString("\n    ](" + outer.Type().Elem().String() + ")") // a Go array (not a slice) prints its type
+			}
+			sb.WriteString("\n](" + outer.Type().String() + ")\n")
+			return outer.Interface(), sb.String()
+		}
+		prog := func() ([]rt.ThreadSpec, func(*rt.Exec) []string) {
+			v1, w1 := mint()
+			v2, w2 := mint()
+			var got [2]string
+			var outs [2]rt.Outcome
+			return []rt.ThreadSpec{
+					{Name: "A", Body: func() { outs[0] = rt.Protect(0, func() { got[0] = cdc.Notation().Make().FormatValue(v1) }) }},
+					{Name: "B", Body: func() { outs[1] = rt.Protect(0, func() { got[1] = cdc.Formatter().Make().FormatValue(v2) }) }},
+				}, func(ex *rt.Exec) []string {
+					var what []string
+					for _, rc := range ex.Races {
+						what = append(what, common.RaceSig(rc)+"\x00"+rc.String())
+					}
+					for k, w := range []string{w1, w2} {
+						if outs[k].Panicked {
+							what = append(what, "FormatValue panics on first use of a type\x00"+outs[k].Value)
+						} else if got[k] != w {
+							what = append(what, "FormatValue text on first use of a type differs from the model\x00"+fmt.Sprintf("got %q want %q", got[k], w))
+						}
+					}
+					return what
+				}
+		}
+		schedx.Explore(r, prog, schedx.Opts{Name: name, Desc: name, SigPrefix: "", CapA: 2000, Bounds: []int{1}, CapB: 500})
+	}}
+}
+
 // firstUse: 2-3 threads call the generic class accessors on reset registries.
 func firstUse(name string, calls []func() any, sameClass [][2]int) engine.Unit {
 	return engine.Unit{Name: "first-use: " + name, Run: func(r *engine.Rec) {
@@ -210,6 +384,8 @@ func units(tier string) []engine.Unit {
 			us = append(us, pairUnit[[]int]("[]int", slices, i, (i+3)%n, true))
 		}
 	}
+	us = append(us, derivedUnits()...)
+	us = append(us, formatterFirstUse())
 	N := common.N
 	us = append(us,
 		firstUse("List[int] twice", []func() any{func() any { return col.List[int](N()) }, func() any { return col.List[int](N()) }}, [][2]int{{0, 1}}),
